@@ -258,9 +258,12 @@ FGen(r, s, mp, mm, even, acc) ==
     ELSE IF NatCmp(NatMulSmall(r2, 2), s) < 0 THEN Append(acc, d) ELSE Append(acc, d + 1)
 (* digits ds and exponent k with |f| = 0.ds * 10^k *)
 FDigits(f) ==
-    LET n == FNorm(f)
+    LET n0 == FNorm(f)
+        \* below 2^-1022 the doubles are the multiples of 2^-1074 (subnormal): the mantissa has fewer bits and both neighbours
+        \* are one such step away - also for the smallest normal double, whose lower neighbour is the largest subnormal one
+        n == IF n0.e < -1074 THEN [m |-> NatDivMod(n0.m, Pow2(-1074 - n0.e)).q, e |-> -1074] ELSE n0
         even == ~IsOdd(n.m)
-        narrow == NatCmp(n.m, Pow2(52)) = 0                    \* the lower neighbour is half as far away
+        narrow == NatCmp(n.m, Pow2(52)) = 0 /\ n.e > -1074    \* the lower neighbour is half as far away
         r0 == IF n.e >= 0 THEN NatMul(n.m, Pow2(n.e + (IF narrow THEN 2 ELSE 1))) ELSE NatMulSmall(n.m, IF narrow THEN 4 ELSE 2)
         s0 == IF n.e >= 0 THEN (IF narrow THEN <<4>> ELSE <<2>>) ELSE Pow2((IF narrow THEN 2 ELSE 1) - n.e)
         mp0 == IF n.e >= 0 THEN Pow2(n.e + (IF narrow THEN 1 ELSE 0)) ELSE (IF narrow THEN <<2>> ELSE <<1>>)
